@@ -36,7 +36,7 @@ impl Prop for C10 {
             Leg {
                 name: "random",
                 kind: LegKind::Random {
-                    cases: tier.pick(600, 8000),
+                    cases: tier.pick(40000, 200000),
                 },
                 workers: 16,
                 build: Build::Normal,
